@@ -532,7 +532,7 @@ def rule_id_helper(ctx):
         else:
             obs.append(ok('ID-HELPER', name + '/deserializes', 'deserializes %s%s' % ('Option<' if needs_option else '', helper_enum['name']) + ('>' if needs_option else ''), fn.loc))
         # conversion applied: String::from / Into
-        conv_calls = [n for n in walk(fn.body) if (n['k'] == 'path' and (n['res'].get('path', '').endswith('From::from') or norm_path(n['res'].get('path', '')) in conv_paths)) or
+        conv_calls = [n for n in walk(fn.body) if (n['k'] == 'path' and (n['res'].get('path', '').endswith(('From::from', 'Into::into')) or norm_path(n['res'].get('path', '')) in conv_paths)) or
                       (n['k'] in ('call', 'mcall') and any(pp.endswith(('From::from', 'Into::into', '::from')) or norm_path(pp) in conv_paths for pp in H.callee_paths(n)))]
         if not conv_calls:
             obs.append(bad('ID-HELPER', name + '/converts', 'no conversion of the helper enum into String', fn.loc, ''))
